@@ -221,11 +221,11 @@ def stream_template(body, local, tpls, steps=12):
         for t in tpls:
             if t.stream == cur:
                 return t
-        ds = M.real_defs(body, cur)
+        ds = M.value_defs(body, cur)
         if len(ds) != 1 or ds[0][1] == "term":
             return None
         rv = ds[0][2]["rv"]
-        nxt = op_place(rv["op"]) if rv["k"] in ("use", "cast") else None
+        nxt = op_place(rv["op"]) if rv["k"] in ("use", "cast") else rv.get("pl") if rv["k"] == "ref" else None
         if nxt is None or [x for x in nxt["p"] if x != "*"]:
             return None
         cur = nxt["l"]
